@@ -192,6 +192,19 @@ pub fn build(full_name: &str, level: u8) -> Option<Scenario> {
                     c.dups = dups;
                     c.crashes = crashes;
                 });
+                if name.contains("-t4") {
+                    // a fourth term: after node 1 (term 3) node 3 may take over and probe node 2,
+                    // whose divergent entry has a higher term than the leader's entry at that index
+                    s.timeoutable = vec![1, 3];
+                    s.crashable = vec![];
+                    s.max_term = 4;
+                    s.max_index = 5;
+                    s.caps = caps(|c| {
+                        c.timeouts = 2;
+                        c.beats = 1 + (l as u8).min(1);
+                        c.drops = (l as u8).min(1);
+                    });
+                }
             }
         }
         // ------------------------------------------------------------ RELEAD
@@ -332,12 +345,6 @@ pub fn build(full_name: &str, level: u8) -> Option<Scenario> {
                 if n.contains("-unp") {
                     nd.max_apply_unpersisted = 2;
                 }
-                if n.contains("-split") {
-                    // fsync only when must_sync says so; the state machine has a store of its
-                    // own: after a crash the applied index may be ahead of the durable commit
-                    nd.skip_sync_when_allowed = true;
-                    nd.split_app_store = true;
-                }
             }
             if n.contains("-lazy") {
                 s.inputs_per_ready = 2;
@@ -445,6 +452,20 @@ pub fn build(full_name: &str, level: u8) -> Option<Scenario> {
                 if n.contains("-szk") {
                     nd.max_size_per_msg = 40;
                 }
+                if n.contains("-async") && n.contains("-a1") {
+                    // only the leader persists asynchronously
+                    nd.mode = AppMode::Sync;
+                }
+                if n.contains("-unp") && !n.contains("-mix") {
+                    // apply-before-persist on the leader
+                    nd.max_apply_unpersisted = 2;
+                }
+                if n.contains("-page") {
+                    nd.max_committed_size_per_ready = 1;
+                }
+            }
+            if n.contains("-async") && n.contains("-a1") {
+                s.nodes[0].mode = AppMode::Async;
             }
             if n.contains("-lazy") || n.contains("-batch") {
                 s.inputs_per_ready = 2;
@@ -479,6 +500,10 @@ pub fn build(full_name: &str, level: u8) -> Option<Scenario> {
                     Action::Tick(1),
                     Action::Settle0(1),
                 ];
+            }
+            if n.contains("-pre2") {
+                // two proposals accepted by the leader in one (asynchronously persisted) Ready
+                s.prefix.extend(vec![Action::Propose(1, 0), Action::Propose(1, 0), Action::ReadyAsync(1)]);
             }
             s.timeoutable = vec![];
             s.clients_at = vec![1];
@@ -585,6 +610,11 @@ pub fn build(full_name: &str, level: u8) -> Option<Scenario> {
                         c.drops = 0;
                     }
                 }
+                if n.contains("-pre2") {
+                    c.props = 0;
+                    c.beats = 0;
+                    c.lazy = 0;
+                }
                 if n.contains("-compact") {
                     // any node may compact its log up to its applied index: late, duplicated
                     // and reordered appends meet compacted prefixes
@@ -647,6 +677,12 @@ pub fn build(full_name: &str, level: u8) -> Option<Scenario> {
             } else {
                 s.prefix = vec![Action::Timeout(1), Action::Settle];
             }
+            if n.contains("-2v") {
+                // two voters: after its own removal the leader faces a single remaining voter
+                s = Scenario { nodes: s.nodes[..2].to_vec(), voters: vec![1, 2], ..s };
+                s.clients_at = vec![1, 2];
+                s.timeoutable = vec![2];
+            }
             if n.contains("-fasync") {
                 // follower 2 persists asynchronously; the leader removes node 3
                 s = Scenario::new(name, 3);
@@ -680,7 +716,34 @@ pub fn build(full_name: &str, level: u8) -> Option<Scenario> {
             if n.contains("-mix") {
                 s.clients_at = vec![1];
             }
+            let c4 = n.contains("-c4");
+            if c4 {
+                // the spare node 4 is made a voter; it may be asked for its vote before its own
+                // application has applied the change (it is not yet "promotable"), and crash
+                s.cc_menu = vec![CcSpec::V1(0, 4)];
+                s.prefix = vec![
+                    Action::Timeout(1),
+                    Action::Settle,
+                    Action::Crash(4, 9),
+                    Action::ProposeCc(1, 0),
+                    Action::Settle,
+                    Action::DropAll,
+                    Action::Restart(4),
+                ];
+                s.crashable = vec![4];
+                s.timeoutable = vec![2];
+                s.clients_at = vec![];
+            }
+            let two = n.contains("-2v");
+            if two {
+                s.transfer_targets = vec![2];
+            }
             let (ccs, props, to, crashes, mt, mi, xf, lazy) = match l {
+                0 if c4 => (0, 0, 1, 1, 3, 6, 0, 1),
+                1 if c4 => (0, 0, 2, 1, 3, 6, 0, 1),
+                0 if two => (1, 1, 1, 0, 3, 6, 0, 1),
+                1 if two => (1, 1, 1, 0, 3, 6, 1, 1),
+                2 if two => (1, 2, 2, 1, 3, 7, 1, 1),
                 0 | 1 if n.contains("-rm1") => (1, l as u8, 2, 0, 3, 6, 0, 1),
                 0 | 1 if n.contains("-mix") => (2, 1, 0, 0, 2, 7, 0, 1),
                 0 | 1 if n.contains("-fasync") => (1, l as u8, 1, 0, 3, 6, 0, 1),
@@ -703,7 +766,14 @@ pub fn build(full_name: &str, level: u8) -> Option<Scenario> {
                 c.crashes = crashes;
                 c.transfers = xf;
                 c.lazy = if n.contains("-lazy") { lazy } else { 0 };
+                if two {
+                    c.reads = 1;
+                    c.beats = l as u8;
+                }
             });
+            if two && l == 0 {
+                s.clients_at = vec![1, 2];
+            }
         }
         // ------------------------------------------------------------ SNAP
         n if n.starts_with("snap") => {
@@ -912,6 +982,45 @@ pub fn build(full_name: &str, level: u8) -> Option<Scenario> {
                 c.ccs = ccs;
                 c.reorders = reorders;
             });
+            if n.contains("-div") {
+                // node 1 holds a local-only (2, term 1); node 2 leads term 2 and committed its own
+                // (2, term 2) with node 3; node 1 follows node 2 (it got a heartbeat) but its log
+                // is not repaired yet: the probing append is still in flight. Node 1 reads.
+                s.prefix = vec![
+                    Action::Timeout(1),
+                    Action::Settle,
+                    Action::Propose(1, 0),
+                    Action::Settle0(1),
+                    Action::DropAll,
+                    Action::Timeout(2),
+                    Action::Settle0(2),
+                    Action::Deliver(2, 3),
+                    Action::Settle0(3),
+                    Action::Deliver(3, 2),
+                    Action::Settle0(2),
+                    Action::Deliver(2, 3),
+                    Action::Settle0(3),
+                    Action::Deliver(3, 2),
+                    Action::Settle0(2),
+                    Action::DropAll,
+                    Action::Tick(2),
+                    Action::Settle0(2),
+                    Action::Deliver(2, 1),
+                    Action::Settle0(1),
+                    Action::Deliver(1, 2),
+                    Action::Settle0(2),
+                ];
+                s.clients_at = vec![1];
+                s.timeoutable = vec![];
+                s.crashable = vec![];
+                s.fault_types = vec![raft::eraftpb::MessageType::MsgAppend as u8];
+                s.caps = caps(|c| {
+                    c.reads = 1;
+                    c.props = 0;
+                    c.beats = (l as u8).min(2);
+                    c.drops = (l as u8).min(1);
+                });
+            }
             if n.contains("-rm1") {
                 // voters {1,2}; the leader 1 removed itself and keeps leading (raft-rs lets it);
                 // the only remaining voter 2 may elect itself and commit on its own
@@ -1100,6 +1209,14 @@ pub fn build(full_name: &str, level: u8) -> Option<Scenario> {
         _ => return None,
     }
     s.mem_compact = memq;
+    if name.contains("-split") {
+        // fsync only when must_sync says so; the state machine has a store of its own: after a
+        // crash the applied index (and applied configuration) may be ahead of the durable commit
+        for nd in s.nodes.iter_mut() {
+            nd.skip_sync_when_allowed = true;
+            nd.split_app_store = true;
+        }
+    }
     if live {
         let n = s.nodes.len();
         for nd in s.nodes.iter_mut() {
